@@ -14,6 +14,7 @@ import os
 from common import Check, coq_eval, impl_run, impl_run_parallel
 
 CLASSES = ["XOS", "XKey", "XRuntime"]
+STARTS = ["root", "launcher", "dropped"]
 ROOT, UIDV, GIDV = "/srv/gopher", "pwd.getpwnam(alice)[2]", "grp.getgrnam(staff)[2]"
 ID_CHANGERS = {"os.setgroups", "os.setregid", "os.setreuid", "os.setuid", "os.setgid", "os.seteuid", "os.setegid",
                "os.setresuid", "os.setresgid", "os.initgroups"}
@@ -54,8 +55,11 @@ def coq_case(case):
     kind = {"running": 0, "abort": 1, "exited": 2}[r["kind"]]
     origin = "None" if r["origin"] is None else "(Some %d%%nat)" % r["origin"]
     tr = "[" + "; ".join("(%s, [%s])" % (cs(n), "; ".join(cs(a) for a in args)) for n, args in r["trace"]) + "]"
-    return "((%s, (%s, (%s, %s))), (%d, (%s, %s)))" % (cb(case["entry"] == "initialize"), coq_opts(case["opts"]), fail,
-                                                       cb(case["fork_parent"]), kind, origin, tr)
+    start = {"root": "StartRoot", "launcher": "StartLauncher", "dropped": "StartDropped"}[case.get("start", "root")]
+    creds = "[" + "; ".join(cs(x) for x in r["final_creds"]) + "]"
+    return "((%s, (%s, (%s, (%s, %s)))), (%d, (%s, (%s, %s))))" % (
+        cb(case["entry"] == "initialize"), coq_opts(case["opts"]), fail, cb(case["fork_parent"]), start,
+        kind, origin, tr, creds)
 
 
 # --------------------------------------------------------------------------
@@ -111,6 +115,19 @@ def oracle(case):
                              % (r["trace"][i][1], "the identity change" if reached else "serving")))
             if ["config.set", ["pygopherd", "root", "/"]] not in upto:
                 hits.append(("chroot-root-not-rewritten", "root option not rewritten to / after chroot"))
+    # the credentials the process ends up with when it goes on to serve
+    if r["kind"] == "running":
+        ruid, euid, suid, rgid, egid, sgid, groups = r["final_creds"]
+        s0 = r["start_creds"]
+        want = [UIDV if o["uid"] else s0[0], UIDV if o["uid"] else s0[1], UIDV if o["uid"] else s0[2],
+                GIDV if o["gid"] else s0[3], GIDV if o["gid"] else s0[4], GIDV if o["gid"] else s0[5],
+                "()" if (o["uid"] or o["gid"]) else s0[6]]
+        names_ = ["real uid", "effective uid", "saved uid", "real gid", "effective gid", "saved gid", "supplementary groups"]
+        bad = [(n, got, w) for n, got, w in zip(names_, r["final_creds"], want) if got != w]
+        if bad:
+            hits.append(("final-credentials", "start-up goes on to serve with " + "; ".join(
+                "%s = %s (configured: %s)" % b for b in bad) + " — started with real/effective/saved uid %s/%s/%s, "
+                "gid %s/%s/%s, groups %s" % tuple(s0)))
     # a failure aborts
     if f is not None and r["failed_call"] is not None and r["failed_call"] not in BEST_EFFORT:
         if r["kind"] != "abort":
@@ -141,15 +158,18 @@ def run(tier):
     found = False
     cov = chk.coverage
 
-    configs = [{"entry": "initialize", "opts": o} for o in all_opts()] + \
-              [{"entry": "init_security", "opts": o} for o in sec_opts()]
+    # starting credentials: every configuration as root; the security-relevant ones (and init_security
+    # alone) also through a set-uid-root launcher and as the already-switched account
+    sec = sec_opts()
+    configs = [{"entry": "initialize", "opts": o, "starts": STARTS if o in sec else ["root"]} for o in all_opts()] + \
+              [{"entry": "init_security", "opts": o, "starts": STARTS} for o in sec]
     cases = sweep(configs)
 
     # ---------------- oracle ----------------
     seen_tags = {}
     for c in cases:
         names = [n for n, _ in c["res"]["trace"]]
-        chk.count((c["entry"], json.dumps(c["opts"], sort_keys=True), c["fail"], c["fork_parent"]),
+        chk.count((c["entry"], json.dumps(c["opts"], sort_keys=True), c["fail"], c["fork_parent"], c.get("start")),
                   nontrivial=(c["fail"] is not None or any(n in RANK for n in names)))
         for tag, what in oracle(c):
             seen_tags.setdefault(tag, []).append((c, what))
@@ -158,6 +178,9 @@ def run(tier):
         c, what = min(lst, key=lambda cw: (cw[0]["fail"] is not None, sum(1 for v in cw[0]["opts"].values() if v not in (False, "absent")),
                                           len(cw[0]["res"]["trace"])))
         chk.violation({"what": what, "entry": c["entry"], "options": c["opts"], "failure": c["fail"],
+                       "start": c.get("start", "root"), "starting_credentials": c["res"]["start_creds"],
+                       "final_credentials": c["res"]["final_creds"],
+                       "credentials_order": "real uid, effective uid, saved uid, real gid, effective gid, saved gid, groups",
                        "failed_call": c["res"]["failed_call"], "outcome": c["res"]["kind"],
                        "escaping_exception": c["res"]["exc"], "recorded_calls": c["res"]["trace"],
                        "cases_with_this_finding": len(lst),
@@ -182,12 +205,15 @@ def run(tier):
     if mism or err:
         detail = {"errors": err, "mismatching_cases": [
             {"entry": cases[i]["entry"], "options": cases[i]["opts"], "failure": cases[i]["fail"],
-             "fork_parent": cases[i]["fork_parent"], "implementation": cases[i]["res"]} for i in mism[:5]],
+             "fork_parent": cases[i]["fork_parent"], "start": cases[i].get("start"),
+             "implementation": cases[i]["res"]} for i in mism[:5]],
             "count": len(mism)}
         chk.correspondence_broken("K19 (IR semantics of initialization.py vs the real start-up)", detail, found)
     chk.finish_proofs(found)
     cov["rule"] = ("exhaustive: usechroot x setuid x setgid x TLS{absent,off,on} x pidfile x detach (96 configurations of "
-                   "initialize) + 8 configurations of init_security alone; for each the unfailed start-up, the parent side "
+                   "initialize) + 8 configurations of init_security alone, started as root; the 8 security configurations of both "
+                   "also started through a set-uid-root launcher (real ids = account, effective/saved 0) and as the account "
+                   "itself; for each the unfailed start-up, the parent side "
                    "of the fork, and every external call failing in turn with OSError / KeyError / RuntimeError; "
                    "non-trivial = a failure is injected or a privilege step occurs")
     chk.assumptions += [
@@ -198,6 +224,9 @@ def run(tier):
         "init_config/init_logger/init_exceptions/init_mimetypes run for real and are opaque steps of the IR",
         "chdir must be os.chdir('/') after os.chroot (the chdir-then-chroot('.') idiom would need the checker widened)",
         "process-group set-up (os.setpgrp/os.getpgrp) is best-effort by design and exempt from the abort clause",
+        "credentials are simulated symbolically (root = 0, the configured account = the pwd/grp look-up results) with the "
+        "Linux semantics of setgroups/setre*id/setres*id/set*id for a process allowed to make the change; the kernel "
+        "refusing a call (EPERM) is covered by failure injection, not by the simulation",
     ]
     return chk.finish("proof")
 
@@ -206,13 +235,15 @@ def replay(path):
     with open(path) as f:
         rep = json.load(f)
     job = {"op": "c19_one", "entry": rep["entry"], "opts": rep["options"], "fail": rep.get("failure"),
-           "fork_parent": False}
+           "fork_parent": False, "start": rep.get("start", "root")}
     r = impl_run([job])[0]
     if not r["ok"]:
         print(r["err"])
         return 2
-    case = {"entry": rep["entry"], "opts": rep["options"], "fail": rep.get("failure"), "fork_parent": False, "res": r["res"]}
+    case = {"entry": rep["entry"], "opts": rep["options"], "fail": rep.get("failure"), "fork_parent": False,
+            "start": rep.get("start", "root"), "res": r["res"]}
     hits = oracle(case)
     print(json.dumps({"outcome": r["res"]["kind"], "exception": r["res"]["exc"],
+                      "starting_credentials": r["res"]["start_creds"], "final_credentials": r["res"]["final_creds"],
                       "calls": r["res"]["trace"], "findings": hits}, indent=1))
     return 1 if hits else 0
